@@ -86,7 +86,19 @@ func thresholds(p *core.Program) []int64 {
 	return out
 }
 
-// ruleShapePairs checks L(enc_r) ⊆ L(dec_r) for all pairs and revisions.
+// terminatorDriven: messages whose decoder legitimately succeeds on a shorter sequence than
+// the encoder of one value emits, because a list terminator is an ordinary value of the
+// element type (the condition "key is empty" / "field id is 0" is data, which E2 erases).
+// For these only L(enc) ⊆ L(dec) is checked.
+var terminatorDriven = map[string]string{
+	"Setting":   "Setting.Decode returns after an empty key: the terminator of the settings list is an empty key written by Query.EncodeAware",
+	"Parameter": "same scheme for the parameters list",
+	"Query":     "contains the two terminator-driven lists",
+	"BlockInfo": "field list ended by field id 0; which ids precede it is data",
+}
+
+// ruleShapePairs checks L(enc_r) ⊆ L(dec_r) for all pairs and revisions, and L(dec_r) ⊆ L(enc_r)
+// for every message that is not terminator-driven.
 func ruleShapePairs(c *Ctx, p *core.Program, rule string, pairs []msgPair, withPath bool) {
 	cfg := p.Cfg.Name
 	revs := revisionSamples(p, c.Thorough())
@@ -100,10 +112,13 @@ func ruleShapePairs(c *Ctx, p *core.Program, rule string, pairs []msgPair, withP
 			word   []string
 			undec  []string
 			sample []string
+			rev    []string // a sequence the decoder accepts and the encoder never emits
 		}
 		cache := map[string]res{}
 		var firstBad *res
 		var badRev int64
+		var revBad []string
+		var revBadRev int64
 		window := int64(-1)
 		nDistinct := 0
 		for _, r := range revs {
@@ -123,6 +138,12 @@ func ruleShapePairs(c *Ctx, p *core.Program, rule string, pairs []msgPair, withP
 				} else {
 					rs.ok, rs.word = contained(ed, dd)
 					rs.sample = ed.sampleWords(1, 40)
+					if rs.ok && terminatorDriven[mp.name] == "" {
+						// the decoder must not succeed on less (or other) than the encoder emits
+						if ok2, w2 := contained(dd, ed); !ok2 {
+							rs.rev = w2
+						}
+					}
 				}
 				cache[sig] = rs
 			}
@@ -131,6 +152,9 @@ func ruleShapePairs(c *Ctx, p *core.Program, rule string, pairs []msgPair, withP
 			}
 			if window < 0 {
 				window = r
+			}
+			if rs.rev != nil && revBad == nil {
+				revBad, revBadRev = rs.rev, r
 			}
 			if (!rs.ok || len(rs.undec) > 0) && firstBad == nil {
 				cp := rs
@@ -147,6 +171,8 @@ func ruleShapePairs(c *Ctx, p *core.Program, rule string, pairs []msgPair, withP
 			c.R.Unk(rule, key, cfg, pos, sprintf("revision %d: construction left the fragment: %s", badRev, strings.Join(firstBad.undec, "; ")))
 		case firstBad != nil:
 			c.R.Bad(rule, key, cfg, pos, sprintf("revision %d: the encoder can emit the field sequence [%s] which no success path of the decoder consumes (missing, extra, reordered or re-typed field, or a gate that differs between the two sides)", badRev, strings.Join(firstBad.word, " ")))
+		case revBad != nil:
+			c.R.Bad(rule, key+"/exact", cfg, p.Pos(mp.dec.Pos()), sprintf("revision %d: a success path of the decoder consumes only [%s], which the encoder never emits: the decoder stops early (or reads something else), so part of an encoded message is accepted as a complete one and the rest of the stream is misread", revBadRev, strings.Join(revBad, " ")))
 		default:
 			smp := ""
 			for _, rs := range cache {
@@ -175,6 +201,7 @@ func runC17(c *Ctx) {
 	ruleGates(c, p, pairs, "C17.gates")
 	ruleBitFlags(c, p, pairs, "C17.flags")
 	ruleThresholds(c, p, "C17.thresholds")
+	ruleFreshTargets(c, p, "C17.fresh")
 
 	// ---- C17.fieldorder
 	rule = "C17.fieldorder"
@@ -855,4 +882,82 @@ func ruleThresholds(c *Ctx, p *core.Program, rule string) {
 	} else {
 		c.R.Bad(rule, "Feature.In", cfg, p.Pos(in.Pos()), sprintf("Feature.In at threshold-1, threshold, threshold+1 = %v, want [0 1 1]: every gated field appears one revision off", got))
 	}
+}
+
+// ruleFreshTargets (C17.fresh): a decode target used in a loop is a new zero value each round.
+func ruleFreshTargets(c *Ctx, p *core.Program, rule string) {
+	c.R.Rule(rule, "in the library's decode loops (proto, ch) a local struct that receives a Decode / DecodeAware call inside a loop is declared inside that loop (a fresh zero value per iteration): element decoders may return early without touching their receiver (Setting.Decode on the empty terminator key), so a target declared outside the loop keeps the previous element's fields and the end-of-list test never fires")
+	cfg := p.Cfg.Name
+	n := 0
+	for _, fn := range p.Funcs() {
+		if pkgOf(fn) == nil || (pkgOf(fn).Path() != core.PkgProto && pkgOf(fn).Path() != core.PkgCh) {
+			continue
+		}
+		k := 0
+		for _, call := range core.Calls(fn) {
+			f := core.CalleeFunc(call)
+			if f == nil || (f.Name() != "Decode" && f.Name() != "DecodeAware") || !core.InLoop(call.(ssa.Instruction)) {
+				continue
+			}
+			args := call.Common().Args
+			var recv ssa.Value
+			if call.Common().IsInvoke() {
+				recv = call.Common().Value
+			} else if len(args) > 0 {
+				recv = args[0]
+			}
+			if mi, ok := recv.(*ssa.MakeInterface); ok {
+				recv = mi.X
+			}
+			al, ok := recv.(*ssa.Alloc)
+			if !ok {
+				continue
+			}
+			if _, isStruct := al.Type().(*types.Pointer).Elem().Underlying().(*types.Struct); !isStruct {
+				continue
+			}
+			n++
+			k++
+			key := sprintf("%s/target#%d", core.FuncName(fn), k)
+			h := core.LoopHeader(call.(ssa.Instruction))
+			if h != nil && core.LoopHeader(al) == h || h != nil && h.Dominates(al.Block()) && core.InLoop(al) {
+				c.R.Ok(rule, key, cfg, p.Pos(al.Pos()), "target declared inside the loop")
+				continue
+			}
+			// declared outside: accepted when the loop stores a zero value into it before the call
+			zeroed := false
+			for _, r := range *al.Referrers() {
+				if st, ok := r.(*ssa.Store); ok && st.Addr == ssa.Value(al) && core.InLoop(st) {
+					if cst, ok := st.Val.(*ssa.Const); ok && cst.Value == nil && core.Dominates(st, call.(ssa.Instruction)) {
+						zeroed = true
+					}
+				}
+			}
+			// hazard only if the element decoder can succeed without writing its receiver
+			untouched := true
+			if g := core.StaticFn(call); g != nil && g.Blocks != nil && len(g.Params) > 0 {
+				rp := g.Params[0]
+				hits := core.ReachAvoiding(core.Entry(g), func(x ssa.Instruction) bool {
+					ret, ok := x.(*ssa.Return)
+					return ok && x.Block().Comment != "recover" && defaultSuccess(g, ret)
+				}, func(x ssa.Instruction) bool {
+					st, ok := x.(*ssa.Store)
+					if !ok {
+						return false
+					}
+					fa, ok := st.Addr.(*ssa.FieldAddr)
+					return ok && fa.X == ssa.Value(rp) || st.Addr == ssa.Value(rp)
+				}, nil)
+				untouched = len(hits) > 0
+			}
+			if zeroed {
+				c.R.Ok(rule, key, cfg, p.Pos(al.Pos()), "target zeroed at the top of each iteration")
+			} else if !untouched {
+				c.R.Ok(rule, key, cfg, p.Pos(al.Pos()), "target declared outside the loop, but its decoder writes it on every success path")
+			} else {
+				c.R.Bad(rule, key, cfg, p.Pos(al.Pos()), "the decode target "+al.Comment+" is declared outside the loop that decodes into it: fields an element decoder leaves untouched (early return on a terminator) keep the previous element's values, so the list never terminates / the last element repeats")
+			}
+		}
+	}
+	c.R.Floor(rule, cfg, n, 2)
 }
